@@ -274,3 +274,5 @@ def run(ctx):
     boundaries.check_guards(ctx, 'C14.RG', 'C14')
     boundaries.check_calls(ctx, 'C14.RC', 'C14')
     boundaries.check_amounts(ctx, 'C14.RA', 'C14')
+    from .. import errdisc
+    errdisc.check(ctx, 'C14.RD', 'C14', 6)
